@@ -300,3 +300,38 @@ V("C04", "numpy-sample-shape", "fire", "C04.R1", "numpy Poisson sample ignores t
   (NB, "return poisson(self.rate).rvs(size=sample_shape + self.rate.shape)", "return poisson(self.rate).rvs(size=sample_shape)"))
 V("C04", "numpy-normal-expanded", "silent", "", "numpy normal_logpdf algebraically rewritten",
   (NB, "summand = -np.square(np.divide((x - mu), (root2 * sigma)))", "summand = -np.square(x - mu) / (2 * np.square(sigma))"))
+
+# ------------------------------------------------------------------ C02
+CON = "src/pyhf/constraints.py"
+PDFF = "src/pyhf/pdf.py"
+PRB = "src/pyhf/probability.py"
+V("C02", "offset-after-continue", "fire", "C02.R1", "gaussian loop advances the offset after the continue",
+  (CON, "            thisauxdata = self.data_indices[start_index:end_index]\n            start_index = end_index\n            if not parset.pdf_type == 'normal':\n                continue\n", "            thisauxdata = self.data_indices[start_index:end_index]\n            if not parset.pdf_type == 'normal':\n                continue\n            start_index = end_index\n"))
+V("C02", "poisson-offset-after-continue", "fire", "C02.R1", "poisson loop advances the offset after the continue",
+  (CON, "            thisauxdata = self.data_indices[start_index:end_index]\n            start_index = end_index\n            if not parset.pdf_type == 'poisson':\n                continue\n", "            thisauxdata = self.data_indices[start_index:end_index]\n            if not parset.pdf_type == 'poisson':\n                continue\n            start_index = end_index\n"))
+V("C02", "auxorder-unguarded", "fire", "C02.R1", "aux order appended for every paramset",
+  (PDFF, "        if paramset.constrained:  # is constrained\n            auxdata += paramset.auxdata\n            auxdata_order.append(param_name)\n", "        if paramset.constrained:  # is constrained\n            auxdata += paramset.auxdata\n        auxdata_order.append(param_name)\n"))
+V("C02", "normal-roles-swapped", "fire", "C02.R3", "Normal(sigmas, means)",
+  (CON, "prob.Normal(normal_means, self.sigmas), batch_size=self.batch_size", "prob.Normal(self.sigmas, normal_means), batch_size=self.batch_size"))
+V("C02", "poisson-factor-dropped", "fire", "C02.R3", "Poisson rate without the factors",
+  (CON, "        pois_rates = tensorlib.product(\n            tensorlib.stack([nuispars, self.batched_factors]), axis=0\n        )", "        pois_rates = nuispars"))
+V("C02", "gauss-data-indices", "fire", "C02.R3", "gaussian logpdf gathers with the access field instead of the data indices",
+  (CON, "normal_data = tensorlib.gather(auxdata, self.normal_data)", "normal_data = tensorlib.gather(auxdata, self.access_field)"))
+V("C02", "pdfobjs-order", "fire", "C02.R4", "constraint appended before main",
+  (PDFF, "        pdfobjs = []\n        mainpdf = self.main_model.make_pdf(pars)\n        if mainpdf:\n            pdfobjs.append(mainpdf)\n        constraintpdf = self.constraint_model.make_pdf(pars)\n        if constraintpdf:\n            pdfobjs.append(constraintpdf)\n", "        pdfobjs = []\n        constraintpdf = self.constraint_model.make_pdf(pars)\n        if constraintpdf:\n            pdfobjs.append(constraintpdf)\n        mainpdf = self.main_model.make_pdf(pars)\n        if mainpdf:\n            pdfobjs.append(mainpdf)\n"))
+V("C02", "constraint-index", "fire", "C02.R4", "constraint_logpdf addresses constituent 0",
+  (PDFF, "return self.make_pdf(pars)[1].log_prob(auxdata)", "return self.make_pdf(pars)[0].log_prob(auxdata)"))
+V("C02", "joint-first-term", "fire", "C02.R5", "two-term shortcut returns the first term",
+  (PRB, "            return terms[0] + terms[1]", "            return terms[0]"))
+V("C02", "independent-axis-none", "fire", "C02.R5", "bins summed over all axes",
+  (PRB, "result = tensorlib.sum(result, axis=-1)", "result = tensorlib.sum(result, axis=None)"))
+V("C02", "shapesys-factor-linear", "fire", "C02.R7", "shapesys factor nominal/unc^2",
+  ("src/pyhf/modifiers/shapesys.py", "(nom_yield**2 / unc**2) if (is_valid) else 1.0", "(nom_yield / unc**2) if (is_valid) else 1.0"))
+V("C02", "staterror-no-sqrt", "fire", "C02.R7", "staterror sigma without the square root",
+  ("src/pyhf/modifiers/staterror.py", "            relerrs = default_backend.sqrt(relerrs)\n", ""))
+V("C02", "override-loses", "fire", "C02.R8", "default wins over the user override",
+  ("src/pyhf/parameters/utils.py", "v = paramset_user_configs.get(k, default_v)", "v = default_v if default_v != 'undefined' else paramset_user_configs.get(k, default_v)"))
+V("C02", "shortcut-removed", "silent", "", "two-term shortcut removed (general stack/sum path)",
+  (PRB, "        if len(terms) == 2 and batch_size is None:\n            return terms[0] + terms[1]\n", ""))
+V("C02", "pdf-exp-temp", "silent", "", "Model.pdf with a temporary",
+  (PDFF, "        return tensorlib.exp(self.logpdf(pars, data))", "        logp = self.logpdf(pars, data)\n        return tensorlib.exp(logp)"))
